@@ -120,5 +120,148 @@ def replay_auth(case):
     check(Ctx(PROPERTY, "auth", "quick", 0, 0, 1), tuple(case))
 
 
+# ---------------------------------------------------------------- commands sent back to back (one segment)
+# The handlers of commands that arrive together must not overlap in a way that lets a command checked for one user run
+# as another: "a session is never authorised as a user whose password it has not supplied".  Three users with disjoint
+# bases holding the same names; the backend really suspends (virtual delays / AsyncPathIO), so a USER line sent right
+# behind a command is handled while that command is still inside its guards.
+PUSERS = {"anonymous": (None, None, "pub"), "bob": ("bob", "pw", "bob"), "admin": ("admin", "secret", "admin")}
+PARGS = ["f", "d", "d/g", "new", "/f", "/d", ".", "", "../f", "d/../f"]
+PVERBS = ["RETR", "LIST", "MLSD", "MLST", "CWD", "MKD", "RMD", "DELE", "STOR", "APPE", "RNFR", "RNTO", "PWD", "CDUP"]
+PLINE = st.one_of(st.tuples(st.sampled_from(PVERBS), st.sampled_from(PARGS)).map(lambda t: (t[0] + " " + t[1]).strip()),
+                  st.sampled_from(["USER admin", "USER bob", "USER anonymous", "USER zed", "PASS wrong", "PASS pw", "PASS secret x",
+                                   "USER admin", "USER bob"]))
+PDELAY = st.lists(st.tuples(st.sampled_from(["exists", "is_file", "is_dir", "stat", "mkdir", "unlink", "rmdir", "rename", "_open", "list.next"]),
+                            st.sampled_from([0.01, 0.5])), max_size=3, unique_by=lambda t: t[0])
+PCASE = st.tuples(st.sampled_from(["anonymous", "bob"]), st.lists(PLINE, min_size=2, max_size=5), PDELAY,
+                  st.sampled_from(["mem", "mem", "afs"]), st.booleans(), st.lists(st.integers(0, 255), max_size=12))
+
+
+def authorised_set(first, lines):
+    """Users the session completes a login for, by the sequential reading of the lines (the only reading the protocol has)."""
+    S = {first}
+    pending = None
+    for ln in lines:
+        verb, _, arg = ln.partition(" ")
+        if verb == "USER":
+            pending = None
+            if arg in PUSERS and PUSERS[arg][1] is not None:
+                pending = arg
+            else:
+                S.add("anonymous")  # unknown names fall back to the anonymous user (password-less)
+        elif verb == "PASS":
+            if pending is not None and PUSERS[pending][1] == arg:
+                S.add(pending)
+                pending = None
+    return S
+
+
+async def _pipelined(loop, case, tmp, info):
+    import asyncio
+    import pathlib
+    from vlib.harness import HOST, PORT, aioftp
+    first, lines, delays, backend, with_data, _tape = case
+    ctl = harness.Ctl()
+    ctl.delays = dict(delays)
+    root = pathlib.Path("/jail") if backend == "mem" else pathlib.Path(tmp) / "jail"
+    users = [aioftp.User(login, pw, base_path=root / d) for login, pw, d in PUSERS.values()]
+    server = aioftp.Server(users, path_io_factory=harness.instrument(harness.BACKENDS[backend], ctl), wait_future_timeout=3)
+    await server.start(HOST, PORT)
+    tree = {"/jail": DIR}
+    for who, (_l, _p, d) in PUSERS.items():
+        b = "/jail/" + d
+        tree.update({b: DIR, b + "/f": ("<%s>:f" % who).encode(), b + "/d": DIR, b + "/d/g": ("<%s>:g" % who).encode()})
+    if backend == "mem":
+        harness.mem_populate(server, dict(tree, **{"/": DIR}))
+        snap = lambda: harness.mem_tree(server)  # noqa: E731
+    else:
+        harness.fs_populate(tmp, tree)
+        snap = lambda: harness.fs_tree(tmp)  # noqa: E731
+    before = snap()
+    raw = harness.Raw(HOST, PORT, patience=200)
+    await raw.connect()
+    await raw.cmd("USER " + first)
+    if PUSERS[first][1] is not None:
+        await raw.cmd("PASS " + PUSERS[first][1])
+    data = b""
+    dsock = None
+    if with_data:
+        await raw.cmd("EPSV")
+        dsock = await raw.open_data()
+        await asyncio.sleep(0.1)
+    mark = len(ctl.log)
+    raw.send(("\r\n".join(lines) + "\r\n").encode())
+    replies = []
+    if dsock is not None:
+        async def pump():
+            nonlocal data
+            if any(ln.split(" ")[0] in ("STOR", "APPE") for ln in lines):
+                dsock[1].write(b"<uploaded>")
+                dsock[1].close()
+            d_, _eof = await harness.read_all(dsock[0], 20)
+            data += d_
+        pump_task = asyncio.ensure_future(pump())
+    while True:
+        try:
+            code, _ls = await asyncio.wait_for(raw.reply(), 30)
+        except asyncio.TimeoutError:
+            break
+        replies.append(code)
+        if code == "EOF":
+            break
+    if dsock is not None:
+        await asyncio.wait([pump_task], timeout=30)
+        dsock[1].close()
+    raw.close()
+    await asyncio.sleep(1)
+    info.update(replies=replies, accesses=[e for e in ctl.log[mark:] if e[1] is not None], data=data, before=before, after=snap(),
+                root=str(root))
+    await asyncio.wait_for(server.close(), 1000)
+
+
+def check_pipelined(ctx, case):
+    first, lines, delays, backend, with_data, tape = case
+    info = {}
+    S = authorised_set(first, lines)
+    try:
+        with harness.TempDirs() as td:
+            tmp = td.new() if backend != "mem" else None
+            simnet.run(lambda loop: _pipelined(loop, case, tmp, info), tape)
+        detail = dict(logged_in_as=first, sent_in_one_segment=lines, backend=backend, delays=delays, replies=info["replies"],
+                      users_the_session_supplied_credentials_for=sorted(S))
+        foreign = [w for w in PUSERS if w not in S]
+        for w in foreign:
+            base = info["root"] + "/" + PUSERS[w][2]
+            hit = [e for e in info["accesses"] if e[1] == base or e[1].startswith(base + "/")]
+            verb = next((ln.split(" ")[0] for ln in lines if ln.split(" ")[0] not in ("USER", "PASS")), "?")
+            if hit:
+                raise Violation(f"C03/pipelined/backend_asked_inside_base_of_user_never_authorised/{hit[0][0]}",
+                                dict(detail, user=w, accesses=hit[:5]))
+            if ("<%s>:" % w).encode() in info["data"]:
+                raise Violation(f"C03/pipelined/content_of_user_never_authorised_served/{verb}", dict(detail, user=w, data=info["data"][:80]))
+            vb = "/jail/" + PUSERS[w][2]
+            sub = lambda t: {k: v for k, v in t.items() if k == vb or k.startswith(vb + "/")}  # noqa: E731
+            if sub(info["before"]) != sub(info["after"]):
+                raise Violation(f"C03/pipelined/tree_of_user_never_authorised_changed/{verb}", dict(detail, user=w))
+    finally:
+        cmd_then_user = any(a.split(" ")[0] not in ("USER", "PASS") and b.startswith("USER ") for a, b in zip(lines, lines[1:]))
+        ctx.count([first, lines, delays, backend, with_data], cmd_then_user and bool(delays or backend == "afs"),
+                  sample=dict(logged_in_as=first, sent_in_one_segment=lines, delays=delays, backend=backend, replies=info.get("replies"),
+                              authorised=sorted(S), backend_accesses=len(info.get("accesses", []))),
+                  classes=["pipelined_be_" + backend, "pipelined_authorised_%d" % len(S)] + (["command_then_USER"] if cmd_then_user else [])
+                  + (["data_connection_open"] if with_data else []))
+
+
+def part_pipelined(ctx):
+    n = 300 if ctx.tier == "quick" else 6000
+    hyp_run(ctx, PCASE, lambda c: check_pipelined(ctx, c), n, name="pipelined")
+
+
+def replay_pipelined(case):
+    from vlib.runner import Ctx
+    first, lines, delays, backend, with_data, tape = case
+    check_pipelined(Ctx(PROPERTY, "pipelined", "quick", 0, 0, 1), (first, list(lines), [tuple(d) for d in delays], backend, with_data, tape))
+
+
 def plan(tier):
-    return [("auth", 16)]
+    return [("auth", 12), ("pipelined", 4)]
